@@ -2103,3 +2103,328 @@ func readsField(fn *ssa.Function, f *types.Var, depth int, c *Ctx) bool {
 	})
 	return found
 }
+
+// ---------------------------------------------------------------------------------------
+// C14 — prepared-statement parameters are exactly the grammar's placeholders (by construction)
+
+func init() {
+	register("C14", "Clause decided (agreement by construction): the parameter positions CalcParams reports are produced by the SQL grammar's own lexer. (lexer) CalcParams' offsets are, by def-use, the result of a function of package parser, and its count is len() of that very value; (marker) in that function an offset is appended only on the edge `token == paramMarker` of a token returned by (*Scanner).scan, the offset being that token's position, and paramMarker is the token the lexer's byte table assigns to '?' (initTokenByte('?', paramMarker)) — the same constant the generated grammar uses for parameter markers; (cut) every text piece of the statement template is cut at those offsets; (prepare) handleStmtPrepare stores CalcParams' count and pieces on its nil-error edge and fails the prepare otherwise. A private scanner in CalcParams (byte comparisons with quote characters and '?') is reported: it cannot know the lexer's contexts (backquoted identifiers, comments, escaped and doubled quotes). What the lexer itself accepts is not examined.",
+		ruleC14)
+}
+
+func ruleC14(c *Ctx, r *Report) {
+	const rule = "MP-C14"
+	r.floor(rule, 5)
+	calc := c.Func(serverRel, "CalcParams")
+	prepare := c.seMethod("handleStmtPrepare")
+	scan := c.Method("parser", "Scanner", "scan")
+	ppkg := c.Pkg("parser")
+	if calc == nil || prepare == nil || scan == nil || ppkg == nil {
+		r.undecided(rule, serverRel+".CalcParams", "anchor", "-", "CalcParams / handleStmtPrepare / parser.Scanner.scan not found")
+		return
+	}
+	var markerVal int64 = -1
+	if obj, ok := ppkg.Pkg.Scope().Lookup("paramMarker").(*types.Const); ok {
+		if v, ok := constantInt64(obj); ok {
+			markerVal = v
+		}
+	}
+	if markerVal < 0 {
+		r.undecided(rule, "parser", "marker:const", "-", "constant parser.paramMarker not found")
+		return
+	}
+	name := c.FuncName(calc)
+	// ---- (lexer) offsets come from package parser
+	var helper *ssa.Function
+	var helperCall *ssa.Call
+	okOff := true
+	nret := 0
+	for _, ret := range returnsOf(calc) {
+		isNil, known := returnsNilError(ret)
+		if known && !isNil {
+			continue
+		}
+		nret++
+		vals, zero := retValues(ret, 1)
+		if zero || len(vals) == 0 {
+			okOff = false
+			continue
+		}
+		for _, v := range vals {
+			for _, l := range phiLeaves(v) {
+				ex, ok := l.(*ssa.Extract)
+				if !ok || ex.Index != 0 {
+					okOff = false
+					continue
+				}
+				call, ok := ex.Tuple.(*ssa.Call)
+				f := (*ssa.Function)(nil)
+				if ok {
+					f = staticCallee(&call.Call)
+				}
+				if f == nil || f.Pkg != ppkg {
+					okOff = false
+					continue
+				}
+				helper, helperCall = f, call
+			}
+		}
+	}
+	if nret == 0 || !okOff || helper == nil {
+		r.viol(rule, name, "lexer:offsets-from-parser", c.Pos(calc.Pos()), "CalcParams finds the placeholders with a scanner of its own (byte comparisons) instead of the SQL lexer: a '?' inside a backquoted identifier, a comment, or after an escaped/doubled quote is counted (or a valid statement is refused), so the parameter count told to the client differs from the grammar's")
+		return
+	}
+	r.ok(rule, name, "lexer:offsets-from-parser", c.Pos(helperCall.Pos()), "the offsets are the result of parser."+helper.Name())
+	// count == len(offsets)
+	okCnt := true
+	for _, ret := range returnsOf(calc) {
+		isNil, known := returnsNilError(ret)
+		if known && !isNil {
+			continue
+		}
+		vals, zero := retValues(ret, 0)
+		if zero {
+			okCnt = false
+			continue
+		}
+		for _, v := range vals {
+			for _, l := range phiLeaves(v) {
+				call, ok := l.(*ssa.Call)
+				if !ok {
+					okCnt = false
+					continue
+				}
+				bi, ok := call.Call.Value.(*ssa.Builtin)
+				if !ok || bi.Name() != "len" {
+					okCnt = false
+					continue
+				}
+				same := false
+				for _, a := range phiLeaves(call.Call.Args[0]) {
+					if ex, ok := a.(*ssa.Extract); ok && ex.Tuple == ssa.Value(helperCall) && ex.Index == 0 {
+						same = true
+					}
+				}
+				if !same {
+					okCnt = false
+				}
+			}
+		}
+	}
+	if okCnt {
+		r.ok(rule, name, "lexer:count-is-len-offsets", c.Pos(calc.Pos()), "the parameter count is len() of the lexer's offsets")
+	} else {
+		r.viol(rule, name, "lexer:count-is-len-offsets", c.Pos(calc.Pos()), "the parameter count is not the number of markers the lexer found")
+	}
+	// (cut) the template is cut at the offsets: every Slice of the sql parameter has bounds derived from elements of offsets
+	okCut, ncut := true, 0
+	sqlP := ssa.Value(calc.Params[0])
+	isOffsetElem := func(v ssa.Value) bool {
+		for _, l := range phiLeaves(v) {
+			u, ok := l.(*ssa.UnOp)
+			if !ok || u.Op != token.MUL {
+				return false
+			}
+			ia, ok := u.X.(*ssa.IndexAddr)
+			if !ok {
+				return false
+			}
+			from := false
+			for _, a := range phiLeaves(ia.X) {
+				if ex, ok := a.(*ssa.Extract); ok && ex.Tuple == ssa.Value(helperCall) && ex.Index == 0 {
+					from = true
+				}
+			}
+			if !from {
+				return false
+			}
+		}
+		return true
+	}
+	var boundOK func(v ssa.Value, d int) bool
+	boundOK = func(v ssa.Value, d int) bool {
+		if v == nil {
+			return true
+		}
+		v = stripValue(v)
+		if _, ok := v.(*ssa.Const); ok {
+			return true
+		}
+		if isOffsetElem(v) {
+			return true
+		}
+		if d == 0 {
+			return false
+		}
+		switch x := v.(type) {
+		case *ssa.BinOp:
+			return boundOK(x.X, d-1) && boundOK(x.Y, d-1)
+		case *ssa.Phi:
+			for _, e := range x.Edges {
+				if e == ssa.Value(x) {
+					continue
+				}
+				if !boundOK(e, d-1) {
+					return false
+				}
+			}
+			return true
+		}
+		return false
+	}
+	allInstrs(calc, func(in ssa.Instruction) {
+		sl, ok := in.(*ssa.Slice)
+		if !ok || stripValue(sl.X) != sqlP {
+			return
+		}
+		ncut++
+		if !boundOK(sl.Low, 4) || !boundOK(sl.High, 4) {
+			okCut = false
+		}
+	})
+	if ncut > 0 && okCut {
+		r.ok(rule, name, "cut:pieces-at-offsets", c.Pos(calc.Pos()), fmt.Sprintf("the %d text pieces are cut at the lexer's offsets", ncut))
+	} else {
+		r.viol(rule, name, "cut:pieces-at-offsets", c.Pos(calc.Pos()), "the statement template is not cut exactly at the lexer's marker offsets: a bound value is spliced at another position than the marker")
+	}
+
+	// ---- (marker) in the helper: appended only on tok == paramMarker, of a token from scan, with that token's offset
+	{
+		hname := c.FuncName(helper)
+		scans := callsIn(helper, func(cc *ssa.CallCommon) bool { return callsFunc(cc, scan) })
+		if len(scans) != 1 {
+			r.undecided(rule, hname, "marker:scan", c.Pos(helper.Pos()), "expected one (*Scanner).scan call")
+		} else {
+			tok := extractOf(scans[0].(ssa.Value), 0)
+			var edges []CondEdge
+			allInstrs(helper, func(in ssa.Instruction) {
+				b, ok := in.(*ssa.BinOp)
+				if !ok || b.Op != token.EQL || tok == nil || stripValue(b.X) != ssa.Value(tok) {
+					return
+				}
+				if k, ok := constInt(b.Y); ok && k == markerVal {
+					for _, e := range condEdges(b) {
+						if e.Val {
+							edges = append(edges, e)
+						}
+					}
+				}
+			})
+			na, okApp := 0, true
+			allInstrs(helper, func(in ssa.Instruction) {
+				call, ok := in.(*ssa.Call)
+				if !ok {
+					return
+				}
+				bi, ok := call.Call.Value.(*ssa.Builtin)
+				if !ok || bi.Name() != "append" {
+					return
+				}
+				if _, isInts := call.Type().Underlying().(*types.Slice); !isInts {
+					return
+				}
+				na++
+				if len(edges) == 0 || !edgesDominate(helper, edges, call.Block()) {
+					okApp = false
+				}
+				// the value recorded is the position of that token (field Offset of scan's second result)
+				for _, v := range variadicElems(call.Call.Args[1]) {
+					okPos := false
+					if u, ok := stripValue(v).(*ssa.UnOp); ok && u.Op == token.MUL {
+						if fa, ok := u.X.(*ssa.FieldAddr); ok {
+							if f := fieldOfAddr(fa); f != nil && f.Name() == "Offset" {
+								if cell, ok := fa.X.(*ssa.Alloc); ok {
+									if sts, zero, ok := reachingStores(cell, u); ok && !zero && len(sts) > 0 {
+										okPos = true
+										for _, st := range sts {
+											ex, ok := stripValue(st.Val).(*ssa.Extract)
+											if !ok || ex.Tuple != scans[0].(ssa.Value) || ex.Index != 1 {
+												okPos = false
+											}
+										}
+									}
+								}
+							}
+						}
+					}
+					if !okPos {
+						okApp = false
+					}
+				}
+			})
+			if na > 0 && okApp {
+				r.ok(rule, hname, "marker:append-on-param-marker", c.Pos(helper.Pos()), fmt.Sprintf("an offset is appended only on the edge token == paramMarker (%d) of a token returned by the lexer", markerVal))
+			} else {
+				r.viol(rule, hname, "marker:append-on-param-marker", c.Pos(helper.Pos()), "offsets are recorded for tokens other than the lexer's parameter marker (or for none)")
+			}
+		}
+		// the lexer's byte table gives '?' the token paramMarker
+		initTB := c.Func("parser", "initTokenByte")
+		okTB := false
+		if initTB != nil {
+			for _, s := range c.callSites(func(cc *ssa.CallCommon) bool { return callsFunc(cc, initTB) }) {
+				cc := callCommon(s.In)
+				if len(cc.Args) == 2 {
+					a, ok1 := constInt(cc.Args[0])
+					b, ok2 := constInt(cc.Args[1])
+					if ok1 && ok2 && a == '?' && b == markerVal {
+						okTB = true
+					}
+				}
+			}
+		}
+		if okTB {
+			r.ok(rule, "parser.init", "marker:question-mark-token", "-", "the lexer's byte table maps '?' to paramMarker")
+		} else {
+			r.viol(rule, "parser.init", "marker:question-mark-token", "-", "the lexer does not emit paramMarker for '?' (initTokenByte('?', paramMarker) not found)")
+		}
+	}
+	// ---- (prepare)
+	{
+		pname := c.FuncName(prepare)
+		calls := callsIn(prepare, func(cc *ssa.CallCommon) bool { return callsFunc(cc, calc) })
+		fCount := c.Field(serverRel, "Stmt", "paramCount")
+		fItems := c.Field(serverRel, "Stmt", "sqlItems")
+		if len(calls) != 1 || fCount == nil || fItems == nil {
+			r.undecided(rule, pname, "prepare:uses-calc", c.Pos(prepare.Pos()), "expected one CalcParams call")
+		} else {
+			call := calls[0].(*ssa.Call)
+			good := true
+			n := 0
+			allInstrs(prepare, func(in ssa.Instruction) {
+				st, ok := in.(*ssa.Store)
+				if !ok {
+					return
+				}
+				f := fieldOfAddr(st.Addr)
+				want := -1
+				if f == fCount {
+					want = 0
+				} else if f == fItems {
+					want = 2
+				} else {
+					return
+				}
+				n++
+				ex, ok := stripValue(resolveLoad(stripValue(st.Val))).(*ssa.Extract)
+				if !ok || ex.Tuple != ssa.Value(call) || ex.Index != want || !dominatedByNilErr(st, call) {
+					good = false
+				}
+			})
+			if good && n == 2 {
+				r.ok(rule, pname, "prepare:uses-calc", c.Pos(call.Pos()), "the statement's parameter count and template are CalcParams' results, stored on its nil-error edge")
+			} else {
+				r.viol(rule, pname, "prepare:uses-calc", c.Pos(call.Pos()), "the prepared statement's parameter count / template are not CalcParams' results on its success edge")
+			}
+		}
+	}
+}
+
+func constantInt64(obj *types.Const) (int64, bool) {
+	s := obj.Val().ExactString()
+	var v int64
+	if _, err := fmt.Sscanf(s, "%d", &v); err != nil {
+		return 0, false
+	}
+	return v, true
+}
